@@ -40,7 +40,7 @@ CHECKS.update({
         technique=TECH.format(what="input byte strings (full byte alphabet) x configurations x source kinds", oracle="totality invariants checked on every call"),
     ),
     "C04": dict(
-        text="operation-history exploration: for every document of <=5/6 tokens over {<a> <ab> <b/> </a> </ab> </a_> </b> x} and each of the 16 initial settings of the four related switches, every history of read_event calls interleaved with <=2/3 switch flips through config_mut() is walked as a prefix-sharing tree over clones of the real reader and compared call by call (event or Mismatched/Unmatched error with payload, buffer and error position) with a Vec<Vec<u8>> stack model",
+        text="operation-history exploration: for every document of <=5/6 tokens over {<a> <ab> <х/> </a> </ab> </a_> </х> x </a+form-feed>} and each of the 16 initial settings of the four related switches, every history of read_event calls interleaved with <=2/3 switch flips through config_mut() is walked as a prefix-sharing tree over clones of the real reader and compared call by call (event or Mismatched/Unmatched error with payload, buffer and error position) with a Vec<Vec<u8>> stack model",
         note="names are drawn from a 3-name pool chosen to be prefixes of each other; text trimming/comment checks kept off (irrelevant to the stack)",
         technique="exhaustive depth-bounded exploration of operation histories (reads x configuration flips) over clones of the real reader against a reference stack model",
     ),
